@@ -1,10 +1,123 @@
 /-
   EG.Driver.Font — model side of the `font.*` correspondence streams (harness/src/m_font.rs).
+
+  Streams (formats documented in m_font.rs):
+    font.index  <mid> <cp>                      -> glyph index in built-in mapping `mid`
+    font.indexs <repl> <data cps> <cps>         -> n=<chars().count()> idx=<index per cp>   (any mapping string)
+    font.info   <fid>                           -> the constants of built-in font `fid`
+    font.glyph  <fontspec> <cps> <atlas>        -> per cp `idx:area:bits`
+    font.draw   <fontspec> <via> <bl> <tc> <bg> <ul> <st> <x> <y> <cps> <atlas>
+                                                -> next=<x,y> r1=<pixel map> r2=same|<pixel map>
+  The atlas bits arrive inside the op line (read by the harness with `font.image.pixel()`); the model
+  selects the cell itself.
 -/
 import EG.Driver.Util
+import EG.Model.Font
 namespace EG.Driver
-open EG
+open EG EG.Font
 
-def handleFont (_stream : String) (_t : Toks) : Option String := none
+/-- `a:b:c` fields of one token -/
+def fields (s : String) : List String := s.splitOn ":"
+
+def hexVal (c : Char) : Nat :=
+  if '0' ≤ c ∧ c ≤ '9' then c.toNat - '0'.toNat
+  else if 'a' ≤ c ∧ c ≤ 'f' then c.toNat - 'a'.toNat + 10
+  else 0
+
+/-- hex string -> bits, most significant bit of every digit first -/
+def hexBits (s : String) : Array Bool :=
+  s.foldl (fun acc c =>
+    let v := hexVal c
+    (((acc.push (v / 8 % 2 == 1)).push (v / 4 % 2 == 1)).push (v / 2 % 2 == 1)).push (v % 2 == 1)) #[]
+
+/-- atlas function of an image of width `w`, height `h` from its row-major bits -/
+def atlasOf (w h : Nat) (bits : Array Bool) : Pt → Bool := fun p =>
+  if 0 ≤ p.x ∧ 0 ≤ p.y ∧ p.x < (w : Int) ∧ p.y < (h : Int) then
+    bits.getD (p.y.toNat * w + p.x.toNat) false
+  else false
+
+/-- `b:<fid>` or `c:<imgW>:<imgH>:<cw>:<ch>:<sp>:<bl>:<ulOff>:<ulH>:<stOff>:<stH>:<repl>:<data cps>` -/
+def parseFontSpec (s : String) : Option MonoFont :=
+  match fields s with
+  | ["b", fid] =>
+    match Generated.fontTable[parseNat fid]? with
+    | some r => some (fontOfRec r)
+    | none => none
+  | ["c", iw, ih, cw, ch, sp, bl, uo, uh, so, sh, repl, data] =>
+    let m : StrMapping := ⟨parseNatList data, parseNat repl⟩
+    some { imgW := parseNat iw, imgH := parseNat ih, cw := parseNat cw, ch := parseNat ch,
+           spacing := parseNat sp, baseline := parseNat bl, ulOff := parseNat uo, ulH := parseNat uh,
+           stOff := parseNat so, stH := parseNat sh, index := m.index }
+  | _ => none
+
+private def parseOptColor (s : String) : Option Color := if s == "-" then none else some (parseNat s)
+
+def parseDeco (s : String) : DecoColor :=
+  if s == "n" then .none else if s == "t" then .textColor else .custom (parseNat s)
+
+def baselineOf : Nat → Baseline
+  | 0 => .top
+  | 1 => .bottom
+  | 2 => .middle
+  | _ => .alphabetic
+
+/-- the harness's unbounded recording box -/
+def bigBox : Rect := ⟨⟨-1048576, -1048576⟩, ⟨2097152, 2097152⟩⟩
+
+def handleFont (stream : String) (t : Toks) : Option String :=
+  match stream with
+  | "font.index" =>
+    let (mid, t) := t.nat
+    let (cp, _) := t.nat
+    some (toString ((builtinMapping mid).index cp))
+  | "font.indexs" =>
+    let (repl, t) := t.nat
+    let (data, t) := t.natList
+    let (cps, _) := t.natList
+    let m : StrMapping := ⟨data, repl⟩
+    some s!"n={(expand data).length} idx={fmtNats (cps.map m.index)}"
+  | "font.info" =>
+    let (fid, _) := t.nat
+    match Generated.fontTable[fid]? with
+    | some r => some s!"{r.imgW} {r.imgH} {r.cw} {r.ch} {r.spacing} {r.baseline} {r.ulOff} {r.ulH} {r.stOff} {r.stH}"
+    | none => some "nofont"
+  | "font.glyph" =>
+    let (spec, t) := t.str
+    let (cps, t) := t.natList
+    let (hex, _) := t.str
+    match parseFontSpec spec with
+    | none => some "nofont"
+    | some f =>
+      let atlas := atlasOf f.imgW f.imgH (hexBits hex)
+      let items := cps.map (fun c =>
+        let a := f.glyphArea c
+        let bits := if f.areaDrawable a then fmtBits (cellBits atlas a) else "-"
+        s!"{f.index c}:{fmtRect a}:{bits}")
+      some (joinOr " " items)
+  | "font.draw" =>
+    let (spec, t) := t.str
+    let (via, t) := t.str
+    let (bl, t) := t.nat
+    let (tc, t) := t.str
+    let (bg, t) := t.str
+    let (ul, t) := t.str
+    let (st, t) := t.str
+    let (pos, t) := t.pt
+    let (cps, t) := t.natList
+    let (hex, _) := t.str
+    match parseFontSpec spec with
+    | none => some "nofont"
+    | some f =>
+      let atlas := atlasOf f.imgW f.imgH (hexBits hex)
+      let style : Style := ⟨parseOptColor tc, parseOptColor bg, parseDeco ul, parseDeco st⟩
+      let (calls, next) :=
+        if via.startsWith "w" then
+          f.drawWhitespace style (parseNat (via.drop 1).toString) pos (baselineOf bl)
+        else
+          f.drawString atlas style cps pos (baselineOf bl)
+      let r1 := fmtPix (canonPix (calls.flatMap (Call.writesDefault bigBox)))
+      let r2 := fmtPix (canonPix (calls.flatMap (Call.writesNative bigBox)))
+      some s!"next={fmtPt next} r1={r1} r2={if r2 == r1 then "same" else r2}"
+  | _ => none
 
 end EG.Driver
